@@ -556,7 +556,7 @@ impl SynthFont {
         }
         // one UFO serving two designspace sources: a second <source> at a new location on one axis naming the
         // same file as an existing full master (a plateau); every drawing, anchor, metric and kerning value repeats there
-        if (p.anchors || p.kerning) && !f.axes.is_empty() && (knob / 16) % 4 == 1 {
+        if (p.anchors || p.kerning || p.outlines) && !f.axes.is_empty() && (knob / 16) % 4 == 1 {
             let full: Vec<usize> = f.full_sources().map(|(i, _)| i).collect();
             let i = full[(knob as usize / 64) % full.len()];
             let a = (knob as usize / 256) % f.axes.len();
